@@ -248,9 +248,13 @@ def run_op(b: Built, op: dict):
         old = signal.signal(signal.SIGALRM, on_alarm)
         outer_left, _ = signal.setitimer(signal.ITIMER_REAL, 5.0)
         t_start = _time.monotonic()
+        dt_q, T_q = B.q('TimeInterval', op['dt']), B.q('TimeInterval', op['T'])
+        if op.get('dt_inplace'):
+            dt_q.to(op['dt_inplace'], inplace=True)        # the user converted the object in place before the call
+        if op.get('T_inplace'):
+            T_q.to(op['T_inplace'], inplace=True)
         try:
-            b.solver.run(time_discretization=B.q('TimeInterval', op['dt']),
-                         simulation_time=B.q('TimeInterval', op['T']), **kw)
+            b.solver.run(time_discretization=dt_q, simulation_time=T_q, **kw)
         finally:
             signal.setitimer(signal.ITIMER_REAL, 0)
             signal.signal(signal.SIGALRM, old)
